@@ -298,7 +298,7 @@ pub fn check(tier: Tier) -> i32 {
         globs.extend(next.iter().cloned());
         level = next;
     }
-    ctx.set_extra("exhaustive", json!({"tokens": TOKENS.len(), "max_tokens": max_tokens, "globs": globs.len(), "paths": paths.len(), "case_modes": 2}));
+    ctx.set_extra("exhaustive_tier", json!({"tokens": TOKENS.len(), "max_tokens": max_tokens, "globs": globs.len(), "paths": paths.len(), "case_modes": 2}));
     let next = AtomicU64::new(0);
     let evals = AtomicU64::new(0);
     let nontriv = AtomicU64::new(0);
